@@ -154,6 +154,7 @@ pub proof fn lemma_split7(f0: Seq<u8>, c0: u8, f1: Seq<u8>, c1: u8, f2: Seq<u8>,
 }
 
 /// conversely: a line with seven pieces is those pieces joined by six separator bytes
+#[verifier::rlimit(60)]
 pub proof fn lemma_split7_join(w: Seq<u8>) -> (c: Seq<u8>)
     requires splitn_spec(w, 7).len() == 7
     ensures ({
@@ -241,6 +242,7 @@ pub proof fn lemma_tcp_line_split(kw: Seq<u8>, a: Seq<u8>, b: Seq<u8>, p: Seq<u8
 // [props: C01 C08]
 /// (statement ==> verdict) a well-formed TCP4 line of at most 107 bytes is accepted with exactly
 /// the addresses and ports written
+#[verifier::rlimit(60)]
 pub proof fn lemma_wf_tcp4_accepted(l: Seq<u8>, x: crate::ip::IPv4)
     requires wf_tcp4(l, x), l.len() <= 107
     ensures line_verdict(l) == V1V::Accept(V1Addresses::Tcp4(x))
@@ -274,6 +276,7 @@ pub proof fn lemma_wf_tcp4_accepted(l: Seq<u8>, x: crate::ip::IPv4)
 }
 
 // [props: C01 C08]
+#[verifier::rlimit(60)]
 pub proof fn lemma_wf_tcp6_accepted(l: Seq<u8>, x: crate::ip::IPv6)
     requires wf_tcp6(l, x), l.len() <= 107
     ensures line_verdict(l) == V1V::Accept(V1Addresses::Tcp6(x))
@@ -309,6 +312,7 @@ pub proof fn lemma_wf_tcp6_accepted(l: Seq<u8>, x: crate::ip::IPv6)
 
 /// shared part of the converse: an accepted TCP line inside a window is its seven pieces joined
 /// by five spaces and CR, the last piece being LF
+#[verifier::rlimit(60)]
 pub proof fn lemma_accepted_tcp_shape(w: Seq<u8>, kw: Seq<u8>)
     requires
         splitn_spec(w, 7).len() == 7,
@@ -342,6 +346,7 @@ pub proof fn lemma_accepted_tcp_shape(w: Seq<u8>, kw: Seq<u8>)
 // [props: C01]
 /// (verdict ==> statement) an accepted TCP4 window is a well-formed TCP4 line in the statement's
 /// form, and the reported addresses and ports are the ones written
+#[verifier::rlimit(60)]
 pub proof fn lemma_accepted_tcp4_wf(w: Seq<u8>, x: crate::ip::IPv4)
     requires line_verdict(w) == V1V::Accept(V1Addresses::Tcp4(x)), first_index_of(w, 13u8) + 2 == w.len()
     ensures wf_tcp4(w, x), w.len() <= 107
@@ -363,6 +368,7 @@ pub proof fn lemma_accepted_tcp4_wf(w: Seq<u8>, x: crate::ip::IPv4)
 }
 
 // [props: C01]
+#[verifier::rlimit(60)]
 pub proof fn lemma_accepted_tcp6_wf(w: Seq<u8>, x: crate::ip::IPv6)
     requires line_verdict(w) == V1V::Accept(V1Addresses::Tcp6(x)), first_index_of(w, 13u8) + 2 == w.len()
     ensures wf_tcp6(w, x), w.len() <= 107
@@ -386,6 +392,7 @@ pub proof fn lemma_accepted_tcp6_wf(w: Seq<u8>, x: crate::ip::IPv6)
 
 // [props: C01 C08]
 /// (statement ==> verdict) `PROXY UNKNOWN`, optionally a space and any text without CR, CRLF
+#[verifier::rlimit(60)]
 pub proof fn lemma_unknown_line_accepted(l: Seq<u8>)
     requires unknown_line(l), l.len() <= 107
     ensures line_verdict(l) == V1V::Accept(V1Addresses::Unknown)
@@ -481,6 +488,7 @@ pub proof fn lemma_accept_is_terminated(s: Seq<u8>)
 /// C01 for the text entry point, from the clauses Verus proves on `try_from(&str)`:
 /// success iff the input starts with a well-formed line (ended by its first CR followed by LF);
 /// the header text is that line and the addresses are the ones written
+#[verifier::rlimit(60)]
 pub proof fn lemma_c01_text(s: Seq<u8>, r: Result<V1Header, V1Error>)
     requires
         vstd::utf8::valid_utf8(s),
